@@ -24,17 +24,23 @@ open PolyVerif.Lemmas.CodonFreq PolyVerif.Lemmas.CodonRefine
 
 /-! ### exact counting -/
 
-/-- The rune loop with its 3-byte buffer computes, for EVERY key `c`, the number of in-frame chunks of the
-upper-cased sequence equal to `c` — any length (also not divisible by 3: the tail is dropped), any ASCII
-letters (non-ACGT chunks are counted under their own key and never disturb the frame). -/
-theorem frequency_exact (s : Str) (hs : Ascii s) (c : Str) :
+/-- The rune loop with its letter counter computes, for EVERY key `c`, the number of in-frame chunks of the
+upper-cased sequence equal to `c` — any length (also not divisible by 3: the tail is dropped), ANY letters
+(non-ACGT and non-ASCII chunks are counted under their own key and never disturb the frame).  No hypothesis:
+since /repo 053f18d codons are framed by letters, not bytes.  (`upper` is `map Char.toUpper` on both sides;
+what is assumed of Go's strings.ToUpper outside ASCII is stated in Model/CodonTables.lean.) -/
+theorem frequency_exact (s : Str) (c : Str) :
     mapGet (getCodonFrequency (CodonTables.upper s)) c = (countCodons s c : Int) :=
-  congrFun (freq_fun_eq s hs) c
+  congrFun (freq_fun_eq s) c
+
+/-- the framing alone, before upper-casing: for every sequence the map counts the in-frame chunks -/
+theorem frequency_frames (s : Str) (c : Str) : mapGet (getCodonFrequency s) c = ((chunks3 s).count c : Nat) :=
+  freq_counts s c
 
 /-- re-weighting sets every weight to exactly that count and touches nothing else: the model's
 `OptimizeTable` on a value is the spec's `reweight` -/
-theorem reweight_exact (t : Table) (s : Str) (hs : Ascii s) : optimizeTable t s = reweight t s := by
-  have h := optimizeCell_eq_reweight s hs t.aminoAcids t rfl
+theorem reweight_exact (t : Table) (s : Str) : optimizeTable t s = reweight t s := by
+  have h := optimizeCell_eq_reweight s t.aminoAcids t rfl
   simp only [optimizeTable, h]
   rfl
 
@@ -48,21 +54,20 @@ theorem reweight_keeps_code (t : Table) (s : Str) : codeOf (optimizeTable t s) =
 theorem reweight_cell_keeps_code (cell : List AminoAcid) (s : Str) : eraseW (optimizeCell s cell) = eraseW cell :=
   eraseW_optimizeCell s cell
 
-example : Ascii "atgGCNxx*".toList := by unfold Ascii; decide
+-- the two regression inputs of /repo 053f18d (before it: ATG = 0 in both)
+example : mapGet (getCodonFrequency (CodonTables.upper "éééATG".toList)) "ATG".toList = 1 := by decide
+example : mapGet (getCodonFrequency (CodonTables.upper "AAéATGATG".toList)) "ATG".toList = 2 := by decide
 example : mapGet (getCodonFrequency (CodonTables.upper "atgATGgcnAT".toList)) "ATG".toList = 2 := by decide
 example : countCodons "atgATGgcnAT".toList "GCN".toList = 1 := by decide
 
 /-! ### histories: heap semantics refines value semantics on Linear histories -/
 
-/-- every coding sequence of the history is ASCII -/
-def AsciiHist {κ : Type} (hist : List (Op κ)) : Prop := ∀ op ∈ hist, AsciiOp op
-
 /-- For every Linear history — of ANY length, over any default tables, any combining function —
 what each step shows under the real sharing semantics is what it shows under value semantics. -/
 theorem history_refines {κ : Type} (cmp : Table → Table → κ → Outcome Table) (defs : List (Nat × Table))
-    (hist : List (Op κ)) (ha : AsciiHist hist) (hl : Linear defs hist = true) :
+    (hist : List (Op κ)) (hl : Linear defs hist = true) :
     runHeap cmp defs hist = runValue addTable cmp defs hist :=
-  inv_run cmp hist _ _ _ (inv_init defs) ha hl
+  inv_run cmp hist _ _ _ (inv_init defs) hl
 
 /-- the regenerated default tables carry uniform weight 1 (re-decided on every run against what
 `GetCodonTable` returns in a fresh process; their assignment is tied to the NCBI codes by Props/C06) -/
@@ -72,15 +77,9 @@ theorem defaults_uniform :
 /-- consequence: on a Linear history a freshly requested default table is the pristine one -/
 theorem linear_get_pristine {κ : Type} (cmp : Table → Table → κ → Outcome Table) (defs : List (Nat × Table))
     (hist : List (Op κ)) (id : Nat) (t : Table) (ht : defs.lookup id = some t)
-    (ha : AsciiHist hist) (hl : Linear defs (hist ++ [Op.get id]) = true) :
+    (hl : Linear defs (hist ++ [Op.get id]) = true) :
     (runHeap cmp defs (hist ++ [Op.get id])).getLast? = some (Obs.table t) := by
-  have ha' : AsciiHist (hist ++ [Op.get id]) := by
-    intro op ho
-    simp only [List.mem_append, List.mem_singleton] at ho
-    rcases ho with ho | rfl
-    · exact ha op ho
-    · trivial
-  rw [history_refines cmp defs _ ha' hl]
+  rw [history_refines cmp defs _ hl]
   simp [runValue, List.foldl_append, vstep, ht, VState.push]
 
 /-- The known finding, kernel-checked: request table 11, re-weight it, request table 11 again — the second
